@@ -27,9 +27,9 @@ Definition merge_params (i o : params) : params :=
 
 Definition redirect_allowed (c : client) (u : string) : bool := mem u (c_redirects c).
 
-(* isAuthDetailTypeAllowed: a client that did not announce its types may use any *)
+(* isAuthDetailTypeAllowed: a client that did not announce its types (no list, or an empty one) may use any *)
 Definition client_detail_type_allowed (c : client) (t : string) : bool :=
-  match c_auth_detail_types c with None => true | Some l => mem t l end.
+  match c_auth_detail_types c with None | Some [] => true | Some l => mem t l end.
 (* validateAuthorizationDetailsAsOptional: every detail's type is supported by the server and allowed for the client *)
 Definition details_param_ok (cfg : config) (c : client) (d : opt_details) : bool :=
   match d with
@@ -300,6 +300,9 @@ Definition continue_auth (w : world) (n : nat) (now : Z) (r : cbreq) : prog out 
   end).
 
 (* POST /par *)
+(* pushedAuthnSession: an empty authorization_details list is not kept in the stored session *)
+Definition par_stored_params (p : params) : params :=
+  match p_auth_details p with Some [] => p <| p_auth_details := None |> | _ => p end.
 Record preq := mkPReq { pr_cred : cred; pr_params : params; pr_bind : bind_in }.
 Definition push_auth (w : world) (n : nat) (now : Z) (r : preq) : prog out :=
   let cfg := w_cfg w in
@@ -328,7 +331,7 @@ Definition push_auth (w : world) (n : nat) (now : Z) (r : preq) : prog out :=
         let jkt := if cf_dpop_enabled cfg then
                      match b_dpop (pr_bind r) with Some pf => jwk_thumb (dp_jwk pf) | None => p_dpop_jkt p end
                    else 0%N in
-        let s := (new_session n c p) <| a_par := mint n KParUri |>
+        let s := (new_session n c (par_stored_params p)) <| a_par := mint n KParUri |>
                    <| a_expires := (now + cf_par_lifetime cfg)%Z |>
                    <| a_jkt := jkt |> <| a_x5t := set_pop_x5t cfg (pr_bind r) |> in
         save_a s (fun rs => match rs with RFail => Ret (OErr EInternalError) | _ => Ret (OPar (a_par s)) end)
